@@ -665,6 +665,9 @@ func (x *Exec) step(st *State, fr *Frame, b *ssa.BasicBlock, idx int, prev *ssa.
 			}
 			// syntactic pruning: a condition already decided on this path has only one feasible branch
 			if known, val := st.knows(c); known {
+				if os.Getenv("GVC_DEBUG_PRUNE") != "" {
+					fmt.Fprintf(os.Stderr, "prune %s: %s known=%v at %s\n", x.fn.Name(), c.String(), val, x.prog.fset.Position(n.Pos()))
+				}
 				if val {
 					x.jump(st, fr, b, tb)
 				} else {
